@@ -72,6 +72,16 @@ def check_c01(run, tier, drive):
     out = os.path.join(vlib.scratch(), "c01")
     os.makedirs(out, exist_ok=True)
     vlib.run([drive, "decode", "-out", out, "-tier", tier, "-seed", str(vlib.seed())], timeout=3000)
+    # the lazily built tables under other process histories: first-use order x GOMAXPROCS at build
+    # time (fresh process each; LazyLut says the table's content depends on neither)
+    hist = [("encode-first", 3), ("mixed", 6)] if tier == "quick" else \
+           [("encode-first", 3), ("mixed", 6), ("encode-first", 1), ("mixed", 2), ("decode-first", 5), ("encode-first", 7), ("mixed", 12), ("decode-first", 13)]
+    with open(os.path.join(out, "c01.ndjson"), "a") as f:
+        for k, (h, procs) in enumerate(hist):
+            vlib.run([drive, "decode", "-out", out, "-tier", "quick", "-light", "-seed", str(vlib.seed() + k), "-history", h, "-name", "h.ndjson"],
+                     timeout=3000, env=dict(vlib.goenv(), GOMAXPROCS=str(procs)))
+            f.write(open(os.path.join(out, "h.ndjson")).read())
+    run.cov["process_histories"] = ["decode-first/P%d" % vlib.NCPU] + ["%s/P%d" % hp for hp in hist]
     rejects, lines = validate(run, "TraceColour/C01", os.path.join(out, "c01.ndjson"))
     run.cov["traces_validated_against_impl"] = len(lines)
     nexact = sum(1 for l in lines if '"exact":true' in l)
